@@ -661,6 +661,18 @@ func routeFacts() {
 		"server/follower_controller.go: handleSnapshot", "after a snapshot the database is re-opened from the received files, gets the term's notifications setting, and commit offset and head are taken from it; the WAL is cleared")
 }
 
+// protocolFacts: fencing, routing, election (C03-C05).
+func protocolFacts() {
+	sd := parse("server/shards_director.go")
+	gf := funcDecl(sd, "shardsDirector", "GetOrCreateFollower")
+	gb := ""
+	if gf != nil {
+		gb = squash(src(gf.Body))
+	}
+	add("lateRequestCannotConvertLeader", "Bool", boolLean(strings.Contains(gb, "} else if leader, ok := s.leaders[shardId]; ok { if term >= 0 && term != leader.Term() { return nil, constant.ErrInvalidTerm }")),
+		"server/shards_director.go: GetOrCreateFollower", "a Replicate / Truncate request only replaces a leader controller by a follower controller when it carries the leader's current term")
+}
+
 // moreFacts collects the facts of the other properties (added per property).
 func moreFacts() {
 	walFacts()
@@ -674,4 +686,5 @@ func moreFacts() {
 	pipelineFacts()
 	sessionFacts()
 	routeFacts()
+	protocolFacts()
 }
